@@ -199,8 +199,10 @@ main(void)
             int r = -1;
             long long tries = 0;
             while (tries < smax) {
-                if (steer)
+                if (steer) {
                     set_msg(&msg, &msglen, (size_t)slen, (uint64_t)(sseed + tries));
+                    printf("R try %lld\n", sseed + tries); /* so that a crash inside this call can be attributed */
+                }
                 tries++;
                 r = protocols_sign(&sig, &pk, &sk, msg, msglen, 0);
                 if (r != -1)
